@@ -10,7 +10,7 @@ set_option linter.unusedSimpArgs false
 set_option linter.unusedVariables false
 
 namespace Fc
-namespace C02
+namespace C02b
 open Mon Fix
 
 theorem dead_of_pre {s : Fix} (h : s.misuseIfDead = none) : s.dead = false := by
@@ -265,5 +265,5 @@ theorem inv_init (ws : Bool) (n cnt : Nat) : Inv ws n (Fix.init n cnt) [] :=
 theorem isDrop_eq (o : Op) : isDrop o = (match o with | .drop => true | _ => false) := by
   cases o <;> rfl
 
-end C02
+end C02b
 end Fc
